@@ -503,4 +503,439 @@ theorem roundtrip_mpol (io : DblIO D) (pr : Prec) (S A : Nat) (m : Mat D) (hv : 
   have h1 := rt_mat io pr.dense S A m hv.1 h
   simp only [rdMPol, wrMPol, bind_apply, h1 _, hv.2, need_true, pure_apply]
 
+/-! ### POMDP::Policy -/
+
+/-- the double scanner never accepts a token that starts with the horizon separator -/
+def NoAt (io : DblIO D) : Prop := ∀ r, io.scanD ('@' :: r) = none
+
+def EntryOK (io : DblIO D) (p S A O oldH : Nat) (e : VEntry D) : Prop :=
+  e.values.length = S ∧ (∀ d ∈ e.values, RT io p d) ∧ e.action < A ∧ e.action < two64 ∧ e.obs.length = O ∧
+  ∀ o ∈ e.obs, o < oldH ∧ o < two64
+
+theorem rt_link (oldH o : Nat) (h : o < oldH) (h64 : o < two64) : RoundTrips (rdLink oldH) (fun o => [printN o]) o := by
+  intro rest
+  have : decide (o ≥ oldH) = false := by simp; omega
+  simp [rdLink, rdN_printN o h64, this]
+
+theorem rt_entry (io : DblIO D) (p S A O oldH : Nat) (e : VEntry D) (h : EntryOK io p S A O oldH e) :
+    RoundTrips (rdEntry io S A O oldH) (wrEntry io p) e := by
+  obtain ⟨hS, hRT, hA, hA64, hO, hobs⟩ := h
+  intro rest
+  have h1 := rt_vec io p S e.values hS hRT
+  have h2 := rep_roundtrip' (rdLink oldH) (fun o => [printN o]) O e.obs hO (fun o ho => rt_link oldH o (hobs o ho).1 (hobs o ho).2)
+  simp only [flatMap_singleton] at h2
+  have h1 : ∀ rest, rep (rdD io) S (e.values.map (io.printD p) ++ rest) = .ok e.values rest := h1
+  simp only [rdEntry, wrEntry, bind_apply, List.append_assoc, List.cons_append, h1 _, rdN_printN e.action hA64, hA,
+    decide_true, need_true, h2 _, pure_apply]
+
+theorem atSign_at (rest : Stream) : atSign (atTok :: rest) = (true, rest) := rfl
+
+theorem atSign_nonAt (t : Tok) (ts : Stream) (h : t.head? ≠ some '@') : atSign (t :: ts) = (false, t :: ts) := by
+  unfold atSign
+  split
+  · rename_i r ts' heq
+    injection heq with h1 h2
+    subst h1
+    simp at h
+  · rfl
+
+theorem printN_head (n : Nat) : (printN n).head? ≠ some '@' := by
+  have hne := digits_ne_nil n
+  have hlt := digits_lt10 n
+  unfold printN
+  cases hd : digits n with
+  | nil => exact absurd hd hne
+  | cons d ds =>
+    rw [hd] at hlt
+    have := (digitChar_ne_sign d (hlt d (List.mem_cons_self))).2.2
+    simpa using this
+
+theorem printD_head (io : DblIO D) (hat : NoAt io) (p : Nat) (d : D) (h : RT io p d) : (io.printD p d).head? ≠ some '@' := by
+  intro hh
+  cases ht : io.printD p d with
+  | nil => simp [ht] at hh
+  | cons c r =>
+    simp [ht] at hh
+    subst hh
+    have := hat r
+    simp [RT, ht, this] at h
+
+/-- the text of an entry starts with a token that is not the separator -/
+theorem entry_head (io : DblIO D) (hat : NoAt io) (p S A O oldH : Nat) (e : VEntry D) (h : EntryOK io p S A O oldH e)
+    (rest : Stream) : ∃ t ts, wrEntry io p e ++ rest = t :: ts ∧ t.head? ≠ some '@' := by
+  cases hv : e.values with
+  | nil => exact ⟨printN e.action, e.obs.map printN ++ rest, by simp [wrEntry, hv], printN_head _⟩
+  | cons v vs =>
+    refine ⟨io.printD p v, vs.map (io.printD p) ++ printN e.action :: (e.obs.map printN ++ rest), by simp [wrEntry, hv], printD_head io hat p v (h.2.1 v (by simp [hv]))⟩
+
+theorem appendToLast_snoc {α} (xs : List (List α)) (l : List α) (e : α) : appendToLast (xs ++ [l]) e = xs ++ [l ++ [e]] := by
+  simp [appendToLast]
+
+theorem lastLen_snoc {α} (xs : List (List α)) (l : List α) : lastLen (xs ++ [l]) = l.length := by
+  simp [lastLen]
+
+/-- L1: inside one horizon — the remaining entries `e :: es`, the separator, then `tail` -/
+theorem polLoop_entries (io : DblIO D) (hat : NoAt io) (p S A O oldH : Nat) :
+    ∀ (es : List (VEntry D)) (e : VEntry D) (xs : VF D) (l : VList D) (f : Nat) (tail : Stream),
+      (∀ x ∈ e :: es, EntryOK io p S A O oldH x) → es.length + 1 ≤ f →
+      polLoop io S A O f (xs ++ [l]) false oldH ((e :: es).flatMap (wrEntry io p) ++ atTok :: tail)
+        = polLoop io S A O (f - (es.length + 1)) (xs ++ [l ++ e :: es]) true oldH tail
+  | [], e, xs, l, f, tail, hok, hf => by
+    obtain ⟨f, rfl⟩ : ∃ g, f = g + 1 := ⟨f - 1, by simp at hf; omega⟩
+    have he := rt_entry io p S A O oldH e (hok e (List.mem_cons_self)) (atTok :: tail)
+    simp only [List.flatMap_cons, List.flatMap_nil, List.append_nil, polLoop, he, atSign_at, appendToLast_snoc]
+    simp
+  | e' :: es, e, xs, l, f, tail, hok, hf => by
+    obtain ⟨f, rfl⟩ : ∃ g, f = g + 1 := ⟨f - 1, by simp at hf; omega⟩
+    have he := rt_entry io p S A O oldH e (hok e (List.mem_cons_self))
+      ((e' :: es).flatMap (wrEntry io p) ++ atTok :: tail)
+    obtain ⟨t, ts, hts, hnat⟩ := entry_head io hat p S A O oldH e' (hok e' (by simp))
+      (es.flatMap (wrEntry io p) ++ atTok :: tail)
+    have hstream : (e :: e' :: es).flatMap (wrEntry io p) ++ atTok :: tail
+        = wrEntry io p e ++ ((e' :: es).flatMap (wrEntry io p) ++ atTok :: tail) := by
+      simp [List.flatMap_cons, List.append_assoc]
+    have hnext : (e' :: es).flatMap (wrEntry io p) ++ atTok :: tail = t :: ts := by
+      rw [← hts]; simp [List.flatMap_cons, List.append_assoc]
+    rw [hstream]
+    simp only [polLoop, he]
+    rw [hnext, atSign_nonAt t ts hnat, ← hnext, appendToLast_snoc]
+    have ih := polLoop_entries io hat p S A O oldH es e' xs (l ++ [e]) f tail
+      (fun x hx => hok x (List.mem_cons_of_mem _ hx)) (by simp only [List.length_cons] at hf ⊢; omega)
+    rw [ih]
+    simp [List.append_assoc, Nat.add_sub_add_right]
+
+/-- horizons `hs` hang correctly below a value function whose last list has `prev` entries -/
+def HorizonsOK (io : DblIO D) (p S A O : Nat) : Nat → List (VList D) → Prop
+  | _, [] => True
+  | prev, l :: r => l ≠ [] ∧ l.length ≤ two64 ∧ (∀ e ∈ l, EntryOK io p S A O prev e) ∧ HorizonsOK io p S A O l.length r
+
+def cost {α} (hs : List (List α)) : Nat := (hs.map (fun l => l.length + 1)).sum
+
+/-- L2: at a horizon boundary — the remaining horizons `hs`, the closing separator, then `rest` -/
+theorem polLoop_horizons (io : DblIO D) (hat : NoAt io) (p S A O : Nat) :
+    ∀ (hs : List (VList D)) (vf : VF D) (oldH f : Nat) (rest : Stream),
+      HorizonsOK io p S A O (lastLen vf) hs → cost hs + 1 ≤ f →
+      polLoop io S A O f vf true oldH (hs.flatMap (wrVList io p) ++ atTok :: rest) = .ok (vf ++ hs) rest
+  | [], vf, oldH, f, rest, _, hf => by
+    obtain ⟨f, rfl⟩ : ∃ g, f = g + 1 := ⟨f - 1, by omega⟩
+    simp [polLoop, atSign_at]
+  | l :: hs, vf, oldH, f, rest, hok, hf => by
+    obtain ⟨hne, _, hent, hrest⟩ := hok
+    cases l with
+    | nil => exact absurd rfl hne
+    | cons e es =>
+      have hc : cost ((e :: es) :: hs) = es.length + 1 + 1 + cost hs := by simp [cost]
+      obtain ⟨f, rfl⟩ : ∃ g, f = g + 1 := ⟨f - 1, by omega⟩
+      obtain ⟨t, ts, hts, hnat⟩ := entry_head io hat p S A O (lastLen vf) e (hent e (List.mem_cons_self))
+        (es.flatMap (wrEntry io p) ++ atTok :: (hs.flatMap (wrVList io p) ++ atTok :: rest))
+      have hstream : ((e :: es) :: hs).flatMap (wrVList io p) ++ atTok :: rest
+          = (e :: es).flatMap (wrEntry io p) ++ atTok :: (hs.flatMap (wrVList io p) ++ atTok :: rest) := by
+        simp [List.flatMap_cons, wrVList, List.append_assoc]
+      have hhead : (e :: es).flatMap (wrEntry io p) ++ atTok :: (hs.flatMap (wrVList io p) ++ atTok :: rest) = t :: ts := by
+        rw [← hts]; simp [List.flatMap_cons, List.append_assoc]
+      rw [hstream, hhead]
+      simp only [polLoop, atSign_nonAt t ts hnat]
+      rw [← hhead]
+      have h1 := polLoop_entries io hat p S A O (lastLen vf) es e vf [] f
+        (hs.flatMap (wrVList io p) ++ atTok :: rest) hent (by omega)
+      rw [h1]
+      have ih := polLoop_horizons io hat p S A O hs (vf ++ [[] ++ e :: es]) (lastLen vf) (f - (es.length + 1)) rest
+        (by simpa [lastLen_snoc] using hrest) (by omega)
+      rw [ih]
+      simp [List.append_assoc]
+
+theorem length_le_streamSize : ∀ (s : Stream), s.length ≤ streamSize s
+  | [] => by simp [streamSize]
+  | t :: ts => by
+    have ih := length_le_streamSize ts
+    simp only [streamSize, List.map_cons, List.sum_cons, List.length_cons] at *
+    omega
+
+theorem wrEntries_length (io : DblIO D) (p : Nat) : ∀ (l : VList D), l.length ≤ (l.flatMap (wrEntry io p)).length
+  | [] => by simp
+  | e :: l => by
+    have ih := wrEntries_length io p l
+    simp only [List.flatMap_cons, List.length_append, List.length_cons, wrEntry, List.length_map] at *
+    omega
+
+theorem wrHorizons_length (io : DblIO D) (p : Nat) : ∀ (hs : List (VList D)), cost hs ≤ (hs.flatMap (wrVList io p)).length
+  | [] => by simp [cost]
+  | l :: hs => by
+    have ih := wrHorizons_length io p hs
+    have h1 := wrEntries_length io p l
+    simp only [cost, List.map_cons, List.sum_cons, List.flatMap_cons, List.length_append, wrVList, List.length_cons,
+      List.length_nil] at *
+    omega
+
+theorem entryOK_of_validB (io : DblIO D) (p S A O prev : Nat) (e : VEntry D) (hA : A ≤ two64) (hprev : prev ≤ two64)
+    (hv : entryValidB S A O prev e = true) (hrt : ∀ d ∈ e.values, RT io p d) : EntryOK io p S A O prev e := by
+  simp only [entryValidB, Bool.and_eq_true, beq_iff_eq, decide_eq_true_eq, List.all_eq_true] at hv
+  obtain ⟨⟨⟨h1, h2⟩, h3⟩, h4⟩ := hv
+  exact ⟨h1, hrt, h2, by omega, h3, fun o ho => ⟨h4 o ho, by have := h4 o ho; omega⟩⟩
+
+theorem horizonsOK_of_validB (io : DblIO D) (p S A O : Nat) (hA : A ≤ two64) :
+    ∀ (hs : List (VList D)) (prev : Nat), prev ≤ two64 → horizonsValidB S A O prev hs = true →
+      (∀ l ∈ hs, l.length ≤ two64) → (∀ l ∈ hs, ∀ e ∈ l, ∀ d ∈ e.values, RT io p d) → HorizonsOK io p S A O prev hs
+  | [], _, _, _, _, _ => trivial
+  | l :: hs, prev, hprev, hv, hlen, hrt => by
+    simp only [horizonsValidB, Bool.and_eq_true, List.all_eq_true] at hv
+    obtain ⟨⟨hne, hent⟩, hrest⟩ := hv
+    have hl := hlen l (List.mem_cons_self)
+    refine ⟨?_, hl, ?_, ?_⟩
+    · intro h; simp [h] at hne
+    · intro e he
+      exact entryOK_of_validB io p S A O prev e hA hprev (hent e he) (hrt l (List.mem_cons_self) e he)
+    · exact horizonsOK_of_validB io p S A O hA hs l.length hl hrest (fun x hx => hlen x (List.mem_cons_of_mem _ hx))
+        (fun x hx => hrt x (List.mem_cons_of_mem _ hx))
+
+/-- **POMDP::Policy**: every policy of any horizon (horizon-0 list as `makeValueFunction` builds it, non-empty
+    lists above, links into the previous list) whose values round-trip at the precision the writer has in force is read
+    back identically, whatever follows the closing `@`. -/
+theorem roundtrip_ppol [DecidableEq D] (io : DblIO D) (hat : NoAt io) (pr : Prec) (S A O : Nat) (vf : VF D)
+    (hv : ppolValidB io S A O vf = true) (hA : A ≤ two64) (hlen : ∀ l ∈ vf, l.length ≤ two64)
+    (hrt : ∀ l ∈ vf.drop 1, ∀ e ∈ l, ∀ d ∈ e.values, RT io pr.pomdpPolicy d) :
+    RoundTrips (rdPPol io S A O) (wrPPol io pr) vf := by
+  cases vf with
+  | nil => simp [ppolValidB] at hv
+  | cons h0 hs =>
+    simp only [ppolValidB, Bool.and_eq_true, decide_eq_true_eq] at hv
+    obtain ⟨rfl, hhs⟩ := hv
+    have hok := horizonsOK_of_validB io pr.pomdpPolicy S A O hA hs 1 (by decide) hhs
+      (fun l hl => hlen l (List.mem_cons_of_mem _ hl)) (by simpa using hrt)
+    intro rest
+    have hfuel : cost hs + 1 ≤ 2 * streamSize (hs.flatMap (wrVList io pr.pomdpPolicy) ++ atTok :: rest) + 2 := by
+      have h1 := wrHorizons_length io pr.pomdpPolicy hs
+      have h2 := length_le_streamSize (hs.flatMap (wrVList io pr.pomdpPolicy) ++ atTok :: rest)
+      simp only [List.length_append] at h2
+      omega
+    have := polLoop_horizons io hat pr.pomdpPolicy S A O hs (vf0 io S) 1 _ rest (by simpa [vf0, lastLen] using hok) hfuel
+    simpa [rdPPol, wrPPol, vf0, List.append_assoc] using this
+
+/-! ### what a successful read guarantees, for EVERY input stream -/
+
+theorem bind_ok_iff {α β} (m : Rd α) (f : α → Rd β) (s s' : Stream) (b : β) :
+    Rd.bind m f s = .ok b s' ↔ ∃ a s1, m s = .ok a s1 ∧ f a s1 = .ok b s' := by
+  simp only [bind_apply]
+  cases m s with
+  | ok a s1 =>
+    constructor
+    · intro h; exact ⟨a, s1, rfl, h⟩
+    · rintro ⟨_, _, h1, h⟩
+      injection h1 with h2 h3
+      subst h2; subst h3; exact h
+  | bad e => simp
+
+theorem need_ok_iff (c : Bool) (s s' : Stream) (u : Unit) : need c s = .ok u s' ↔ c = true ∧ s = s' := by
+  cases c <;> simp [need]
+
+theorem pure_ok_iff {α} (a b : α) (s s' : Stream) : Rd.pure a s = .ok b s' ↔ a = b ∧ s = s' := by
+  simp [Rd.pure]
+
+theorem scanN_lt (t r : Tok) (n : Nat) (h : scanN t = some (n, r)) : n < two64 := by
+  unfold scanN at h
+  simp only [] at h
+  split at h
+  · simp at h
+  · split at h
+    · simp at h
+    · rename_i hv
+      simp only [Option.some.injEq, Prod.mk.injEq] at h
+      rw [← h.1]
+      split
+      · exact Nat.mod_lt _ (by decide)
+      · omega
+
+theorem rdN_ok (s s' : Stream) (n : Nat) (h : rdN s = .ok n s') : n < two64 := by
+  unfold rdN at h
+  split at h
+  · simp at h
+  · split at h
+    · simp at h
+    · rename_i hsc
+      simp only [R.ok.injEq] at h
+      rw [← h.1]
+      exact scanN_lt _ _ _ hsc
+
+theorem rdVecGen_ok {α} (rd : Rd α) (P : α → Prop) (hP : ∀ s a s', rd s = .ok a s' → P a) (rows cols : Nat)
+    (s s' : Stream) (m : Mat α) (h : rep (rep rd cols) rows s = .ok m s') : shapeB rows cols m = true ∧ AllMat P m := by
+  have := rep_ok (rep rd cols) (fun r => r.length = cols ∧ ∀ x ∈ r, P x)
+    (fun s a s' h => rep_ok rd P hP cols s a s' h) rows s m s' h
+  rw [shapeB_iff]
+  exact ⟨⟨this.1, fun r hr => (this.2 r hr).1⟩, fun r hr => (this.2 r hr).2⟩
+
+theorem rdMat_ok (io : DblIO D) (rows cols : Nat) (s s' : Stream) (m : Mat D) (h : rdMat io rows cols s = .ok m s') :
+    shapeB rows cols m = true :=
+  (rdVecGen_ok (rdD io) (fun _ => True) (fun _ _ _ _ => trivial) rows cols s s' m h).1
+
+theorem rdMat3_ok (io : DblIO D) (k rows cols : Nat) (s s' : Stream) (m : List (Mat D))
+    (h : rdMat3 io k rows cols s = .ok m s') : shape3B k rows cols m = true := by
+  have := rep_ok (rdMat io rows cols) (fun t => shapeB rows cols t = true) (fun s a s' h => rdMat_ok io rows cols s s' a h) k s m s' h
+  rw [shape3B_iff]; exact this
+
+theorem rdTab3_ok (k rows cols : Nat) (s s' : Stream) (m : List (Mat Nat)) (h : rdTab3 k rows cols s = .ok m s') :
+    shape3B k rows cols m = true ∧ m.all (fun t => t.all (fun r => r.all (fun n => decide (n < two64)))) = true := by
+  have := rep_ok (rdTab rows cols) (fun t => shapeB rows cols t = true ∧ AllMat (· < two64) t)
+    (fun s a s' h => rdVecGen_ok rdN (· < two64) (fun s a s' h => rdN_ok s s' a h) rows cols s s' a h) k s m s' h
+  rw [shape3B_iff]
+  refine ⟨⟨this.1, fun t ht => (this.2 t ht).1⟩, ?_⟩
+  simp only [List.all_eq_true, decide_eq_true_eq]
+  intro t ht r hr n hn
+  exact (this.2 t ht).2 r hr n hn
+
+/-! sparse: `setFromTriplets` always produces storage order, and keeps indices in range -/
+
+theorem insertSum_keys {V} (add : V → V → V) (e : SpE V) : ∀ (m : SpMat V) (y : SpE V), y ∈ insertSum add e m →
+    (y.r = e.r ∧ y.c = e.c) ∨ ∃ x ∈ m, y.r = x.r ∧ y.c = x.c
+  | [], y, h => by simp [insertSum] at h; simp [h]
+  | x :: xs, y, h => by
+    unfold insertSum at h
+    split at h
+    · rcases List.mem_cons.mp h with rfl | h
+      · exact Or.inl ⟨rfl, rfl⟩
+      · exact Or.inr ⟨y, h, rfl, rfl⟩
+    · split at h
+      · rcases List.mem_cons.mp h with rfl | h
+        · exact Or.inr ⟨x, List.mem_cons_self, rfl, rfl⟩
+        · exact Or.inr ⟨y, List.mem_cons_of_mem _ h, rfl, rfl⟩
+      · rcases List.mem_cons.mp h with rfl | h
+        · exact Or.inr ⟨y, List.mem_cons_self, rfl, rfl⟩
+        · rcases insertSum_keys add e xs y h with h | ⟨x', hx', h⟩
+          · exact Or.inl h
+          · exact Or.inr ⟨x', List.mem_cons_of_mem _ hx', h⟩
+
+theorem keyLt_congr_right {V} (a b b' : SpE V) (hr : b'.r = b.r) (hc : b'.c = b.c) (h : keyLt a b = true) : keyLt a b' = true := by
+  rw [keyLt_iff] at *; omega
+theorem keyLt_congr_left {V} (a a' b : SpE V) (hr : a'.r = a.r) (hc : a'.c = a.c) (h : keyLt a b = true) : keyLt a' b = true := by
+  rw [keyLt_iff] at *; omega
+
+theorem insertSum_sorted {V} (add : V → V → V) (e : SpE V) : ∀ (m : SpMat V), Sorted m → Sorted (insertSum add e m)
+  | [], _ => by simp [insertSum, Sorted]
+  | x :: xs, h => by
+    simp only [Sorted, List.pairwise_cons] at h
+    obtain ⟨hx, hxs⟩ := h
+    unfold insertSum
+    split
+    · rename_i hlt
+      simp only [Sorted, List.pairwise_cons]
+      refine ⟨?_, hx, hxs⟩
+      intro y hy
+      rcases List.mem_cons.mp hy with rfl | hy
+      · exact hlt
+      · exact keyLt_trans e x y hlt (hx y hy)
+    · split
+      · simp only [Sorted, List.pairwise_cons]
+        exact ⟨fun y hy => keyLt_congr_left x _ y rfl rfl (hx y hy), hxs⟩
+      · rename_i hnlt hneq
+        simp only [Sorted, List.pairwise_cons]
+        refine ⟨?_, insertSum_sorted add e xs hxs⟩
+        intro y hy
+        have hxe : keyLt x e = true := keyLt_total e x (by simpa using hnlt) (by simpa using hneq)
+        rcases insertSum_keys add e xs y hy with ⟨h1, h2⟩ | ⟨x', hx', h1, h2⟩
+        · exact keyLt_congr_right x e y h1 h2 hxe
+        · exact keyLt_congr_right x x' y h1 h2 (hx x' hx')
+
+theorem fromTriplets_valid {V} (add : V → V → V) (rows cols : Nat) (ts : List (SpE V))
+    (hr : ∀ e ∈ ts, e.r < rows ∧ e.c < cols) : spValidB rows cols (fromTriplets add ts) = true := by
+  have key : ∀ (ts acc : SpMat V), Sorted acc → (∀ e ∈ acc, e.r < rows ∧ e.c < cols) → (∀ e ∈ ts, e.r < rows ∧ e.c < cols) →
+      Sorted (ts.foldl (fun m e => insertSum add e m) acc) ∧ ∀ e ∈ ts.foldl (fun m e => insertSum add e m) acc, e.r < rows ∧ e.c < cols := by
+    intro ts
+    induction ts with
+    | nil => intro acc h1 h2 _; exact ⟨h1, h2⟩
+    | cons t ts ih =>
+      intro acc h1 h2 h3
+      simp only [List.foldl_cons]
+      apply ih _ (insertSum_sorted add t acc h1)
+      · intro y hy
+        rcases insertSum_keys add t acc y hy with ⟨e1, e2⟩ | ⟨x, hx, e1, e2⟩
+        · have := h3 t (List.mem_cons_self); omega
+        · have := h2 x hx; omega
+      · exact fun e he => h3 e (List.mem_cons_of_mem _ he)
+  have := key ts [] (by simp [Sorted]) (by simp) hr
+  simp only [spValidB, Bool.and_eq_true, sortedB_iff, inRangeB_iff]
+  exact this
+
+theorem rdTriplets_ok {V} (rdV : Rd V) (P : V → Prop) (hP : ∀ s a s', rdV s = .ok a s' → P a) (rows cols : Nat) :
+    ∀ (n : Nat) (s s' : Stream) (ts : List (SpE V)), rdTriplets rdV rows cols n s = .ok ts s' →
+      ∀ e ∈ ts, e.r < rows ∧ e.c < cols ∧ P e.v
+  | 0, s, s', ts, h => by
+    have h' : Rd.pure [] s = .ok ts s' := h
+    rw [pure_ok_iff] at h'
+    simp [← h'.1]
+  | n + 1, s, s', ts, h => by
+    simp only [rdTriplets, bind_ok_iff, need_ok_iff, pure_ok_iff, decide_eq_true_eq] at h
+    obtain ⟨r, s1, _, c, s2, _, v, s3, hv, _, s4, ⟨hr, _⟩, _, s5, ⟨hc, _⟩, rest, s6, hrest, rfl, _⟩ := h
+    intro e he
+    rcases List.mem_cons.mp he with rfl | he
+    · exact ⟨hr, hc, hP _ _ _ hv⟩
+    · exact rdTriplets_ok rdV P hP rows cols n _ _ rest hrest e he
+
+theorem fromTriplets_all {V} (add : V → V → V) (P : V → Prop) (hadd : ∀ a b, P a → P b → P (add a b)) :
+    ∀ (ts acc : SpMat V), (∀ e ∈ acc, P e.v) → (∀ e ∈ ts, P e.v) → ∀ e ∈ ts.foldl (fun m e => insertSum add e m) acc, P e.v := by
+  have ins : ∀ (t : SpE V) (acc : SpMat V), P t.v → (∀ e ∈ acc, P e.v) → ∀ e ∈ insertSum add t acc, P e.v := by
+    intro t acc
+    induction acc with
+    | nil => intro ht _ e he; simp [insertSum] at he; simp [he, ht]
+    | cons x xs ih =>
+      intro ht hacc e he
+      unfold insertSum at he
+      split at he
+      · rcases List.mem_cons.mp he with rfl | he
+        · exact ht
+        · exact hacc e he
+      · split at he
+        · rcases List.mem_cons.mp he with rfl | he
+          · exact hadd _ _ (hacc x List.mem_cons_self) ht
+          · exact hacc e (List.mem_cons_of_mem _ he)
+        · rcases List.mem_cons.mp he with rfl | he
+          · exact hacc e List.mem_cons_self
+          · exact ih ht (fun y hy => hacc y (List.mem_cons_of_mem _ hy)) e he
+  intro ts
+  induction ts with
+  | nil => intro acc h1 _; simpa using h1
+  | cons t ts ih =>
+    intro acc h1 h2
+    simp only [List.foldl_cons]
+    exact ih _ (ins t acc (h2 t List.mem_cons_self) h1) (fun e he => h2 e (List.mem_cons_of_mem _ he))
+
+theorem rdSpGen_ok {V} (rdV : Rd V) (add : V → V → V) (P : V → Prop) (hP : ∀ s a s', rdV s = .ok a s' → P a)
+    (hadd : ∀ a b, P a → P b → P (add a b)) (rows cols : Nat)
+    (s s' : Stream) (m : SpMat V) (h : rdSpGen rdV add rows cols s = .ok m s') :
+    spValidB rows cols m = true ∧ ∀ e ∈ m, P e.v := by
+  simp only [rdSpGen, bind_ok_iff, need_ok_iff, pure_ok_iff] at h
+  obtain ⟨n, s1, _, _, s2, _, ts, s3, hts, rfl, _⟩ := h
+  have hr := rdTriplets_ok rdV P hP rows cols n _ _ ts hts
+  exact ⟨fromTriplets_valid add rows cols ts (fun e he => ⟨(hr e he).1, (hr e he).2.1⟩),
+    fromTriplets_all add P hadd ts [] (by simp) (fun e he => (hr e he).2.2)⟩
+
+theorem rdSpMat_ok (io : DblIO D) (rows cols : Nat) (s s' : Stream) (m : SpMat D) (h : rdSpMat io rows cols s = .ok m s') :
+    spValidB rows cols m = true :=
+  (rdSpGen_ok (rdD io) io.add (fun _ => True) (fun _ _ _ _ => trivial) (fun _ _ _ _ => trivial) rows cols s s' m h).1
+
+theorem rdSpMat3_ok (io : DblIO D) (k rows cols : Nat) (s s' : Stream) (m : List (SpMat D))
+    (h : rdSpMat3 io k rows cols s = .ok m s') : sp3ValidB k rows cols m = true := by
+  have := rep_ok (rdSpMat io rows cols) (fun t => spValidB rows cols t = true) (fun s a s' h => rdSpMat_ok io rows cols s s' a h) k s m s' h
+  rw [sp3ValidB_iff]; exact this
+
+theorem rdCount_ok (io : DblIO D) (hc : ∀ d, io.toCount d < two64) (vd : Bool) (s s' : Stream) (n : Nat)
+    (h : rdCount io vd s = .ok n s') : n < two64 := by
+  cases vd with
+  | false => exact rdN_ok s s' n (by simpa [rdCount] using h)
+  | true =>
+    simp only [rdCount, if_true, bind_ok_iff, pure_ok_iff] at h
+    obtain ⟨d, s1, _, rfl, _⟩ := h
+    exact hc d
+
+theorem addN_lt (a b : Nat) : addN a b < two64 := Nat.mod_lt _ (by decide)
+
+theorem rdSpTab3_ok (io : DblIO D) (hc : ∀ d, io.toCount d < two64) (vd : Bool) (k rows cols : Nat) (s s' : Stream) (m : List (SpMat Nat))
+    (h : rdSpTab3 io vd k rows cols s = .ok m s') :
+    sp3ValidB k rows cols m = true ∧ m.all (fun t => t.all (fun x => decide (x.v < two64))) = true := by
+  have := rep_ok (rdSpTab io vd rows cols) (fun t => spValidB rows cols t = true ∧ ∀ e ∈ t, e.v < two64)
+    (fun s a s' h => rdSpGen_ok (rdCount io vd) addN (· < two64) (fun s a s' h => rdCount_ok io hc vd s s' a h)
+      (fun a b _ _ => addN_lt a b) rows cols s s' a h) k s m s' h
+  rw [sp3ValidB_iff]
+  refine ⟨⟨this.1, fun t ht => (this.2 t ht).1⟩, ?_⟩
+  simp only [List.all_eq_true, decide_eq_true_eq]
+  exact fun t ht e he => (this.2 t ht).2 e he
+
 end AITB.Codec
